@@ -333,6 +333,28 @@ def check(run, model, tier):
                 ok = cnt == (1, 1)
                 run.inst('DELIVER.exact', r, 'adds once per subscriber', ok,
                          '' if ok else 'the delivery loop adds %s times per subscriber' % (cnt,), node=hd.stmt, obligation=True)
+                # the delivery is conditional on nothing but "an item was taken" and "somebody subscribed to its signal" (and the thread's own run test)
+                from sa.boolflow import must_atoms as _ma
+                reach_ok = bool(gets) and (gr.exists_path(gets[0][0], hd) or gets[0][0] is hd)
+                run.inst('DELIVER.exact', r, 'the subscriber loop is reached from the get()', reach_ok,
+                         '' if reach_ok else 'no path leads from taking an item to the delivery loop: publications are taken from the fabric queue and dropped', node=hd.stmt, obligation=True)
+                for n, c in adds:
+                    extra = []
+                    for (l_, op_, r_) in _ma(gr, n, r.node, params=r.params):
+                        if l_ == item and ((op_ in ('IsNot', 'NotEq') and r_ == 'None') or op_ == 'Truthy'):
+                            continue
+                        if op_ == 'In' and (r_ == rp or r_.startswith(rp + '.') or r_.startswith(rp + '[')) and l_.endswith('signal_name'):
+                            continue
+                        if r_ == item and op_ in ('IsNot', 'NotEq') and l_ == 'None':
+                            continue
+                        if op_ == 'Truthy' and l_.endswith('.is_set()'):
+                            continue
+                        if op_ in ('Is', 'Eq', 'IsNot', 'NotEq') and ('True' in (l_, r_) or 'False' in (l_, r_)) and (l_.endswith('.is_set()') or r_.endswith('.is_set()')):
+                            continue
+                        extra.append('%s %s %s' % (l_, op_, r_))
+                    run.inst('DELIVER.exact', r, 'delivery depends only on "item taken" and "signal has subscribers"', not extra,
+                             '' if not extra else ('the delivery of a publication is additionally conditional on %s: publications for which that does not hold are taken from the fabric '
+                                                   'queue and silently dropped' % '; '.join(sorted(extra))), node=c, obligation=True)
                 for n, c in adds:
                     ok = len(c.args) == 1 and dotted(c.args[0]) in (item + '.event',) or \
                         (len(c.args) == 1 and isinstance(c.args[0], ast.Name) and any(not isinstance(d, tuple) and dotted(d) == item + '.event' for d in rdefs.get(c.args[0].id, [])))
